@@ -475,6 +475,13 @@ func (s *c18Side) flatten(b []byte) []string {
 			v := strings.TrimSpace(text.String())
 			if v != "" {
 				leaf := path[len(path)-1]
+				if strings.HasPrefix(leaf, "Checksum") {
+					// object checksums are not among the things the property lists, and the SDK inside the proxy
+					// adds a CRC32 to every upload of its own accord (the direct upload gets the endpoint's default)
+					text.Reset()
+					path = path[:len(path)-1]
+					continue
+				}
 				switch leaf {
 				case "LastModified", "Initiated", "CreationDate":
 					v = "TIME" // file times come from the real file system clock
@@ -499,7 +506,7 @@ func (s *c18Side) norm(v string) string {
 
 var c18CmpHeaders = []string{"ETag", "Content-Length", "Content-Type", "Content-Encoding", "Content-Disposition", "Content-Language",
 	"Cache-Control", "Expires", "Content-Range", "Accept-Ranges", "x-amz-tagging-count", "x-amz-mp-parts-count", "x-amz-delete-marker",
-	"x-amz-checksum-crc32", "x-amz-checksum-sha256", "x-amz-checksum-type", "x-amz-storage-class", "x-amz-bucket-region"}
+	"x-amz-storage-class", "x-amz-bucket-region"}
 
 func c18OutcomeClass(r *s3c.Resp) string {
 	switch {
